@@ -183,6 +183,7 @@ class Walker:
         self.no_inline = lambda defp: False
         self.custom_model = lambda cn, callee, args, st, walker: None
         self.on_loop = None
+        self.on_heap_write = None
         self.results = []
         self.steps = 0
         self.stats = {"paths": 0, "inlined": 0, "opaque": {}, "effects": 0, "max_depth_hits": 0, "blocks": 0}
@@ -496,6 +497,8 @@ class Walker:
                 fr.locals[root[2]] = self._upd(base, path, val)
             return
         # abstract object
+        if self.on_heap_write is not None:
+            self.on_heap_write(st, pl, val, self)
         for key in list(st.heap.keys()):
             r2, p2 = key
             if r2 == root and (p2[:len(path)] == path or path[:len(p2)] == p2):
